@@ -233,22 +233,14 @@ class Lexer:
 
             self._position += 1
 
-            if not char.isalnum():
-                break
+            if char not in "0123456789abcdefABCDEF":
+                raise InvalidEscapeSequence(
+                    "\\u%s" % self._source[start : self._position],
+                    start - 1,
+                    self._source,
+                )
 
-        escape = self._source[start : self._position]
-
-        if len(escape) != 4:
-            raise InvalidEscapeSequence(
-                "\\u%s" % escape, start - 1, self._source
-            )
-
-        try:
-            return str(chr(int(escape, 16)))
-        except ValueError:
-            raise InvalidEscapeSequence(
-                "\\u%s" % escape, start - 1, self._source
-            )
+        return chr(int(self._source[start : self._position], 16))
 
     def _read_number(self) -> Union[Integer, Float]:  # noqa: C901
         start = self._position
